@@ -65,6 +65,11 @@ def dStep (d : DSt) (op : List String) : DSt × String :=
       let (s3, sps) := runPending s2 pend
       ({ d with s := s3, lastT := t }, joinWith "," ((if ok then "x" else "nochild") :: sps.map showSpawn))
     | _, _ => (d, "bad-op")
+  | "HQ" :: peer :: _hex :: urluid :: _ => match peer.toNat? with
+    | some peer =>
+      let (s, st, us) := httpQueue d.s peer (if urluid == "-" then none else urluid.toNat?)
+      ({ d with s := s }, if us.isEmpty then s!"{st}" else s!"{st}:" ++ joinWith "+" (sortStrs us))
+    | none => (d, "bad-op")
   | "H" :: peer :: _hex :: urluid :: tuids => match peer.toNat? with
     | some peer =>
       let (st, us) := httpSched d.s peer (if urluid == "-" then none else urluid.toNat?) (tuids.filter (· ≠ "-"))
